@@ -55,6 +55,7 @@ func init() {
 		fs := flag.NewFlagSet("c13gaps", flag.ExitOnError)
 		casesPath := fs.String("cases", "", "cases ndjson (spec/Gaps.tla)")
 		out := fs.String("out", "-", "mismatch ndjson")
+		lenMode := fs.Bool("len", false, "C14: every accepted spelling that ends with its last token, followed by a line break and foreign text: Len = its length")
 		fs.Parse(args)
 		w := newNDWriter(*out)
 		defer w.Close()
@@ -72,6 +73,28 @@ func init() {
 				fatal(err)
 			}
 			n++
+			if *lenMode {
+				last := c.Text[len(c.Text)-1]
+				if c.Kind == "doc" || last == ' ' || last == '\t' || last == '\n' || last == '\r' || strings.HasSuffix(c.Text, "###") || strings.Contains(c.Text[strings.LastIndexAny(c.Text, "\n\r")+1:], "#") {
+					return // ends in a filler (blank or comment): what "the schema" is there is another question
+				}
+				for _, tail := range []string{"\nGET /cats", "\n\nx", "\r\n200 any", "\n\tTYPE @x"} {
+					evals++
+					text := c.Text + tail
+					var l uint
+					var o Outcome
+					if c.Kind == "enum" {
+						o = guard(func() error { var e error; l, e = enum.New("@e", text).Len(); return e })
+					} else {
+						o = guard(func() error { var e error; l, e = jschema.New("root", text).Len(); return e })
+					}
+					if !o.OK || int(l) != len(c.Text) {
+						mism++
+						w.Write(gapMismatch{text, c.Base, fmt.Sprintf("Len = %d (%+v), the text before the line break has %d bytes", l, o, len(c.Text))})
+					}
+				}
+				return
+			}
 			if c.Kind == "doc" {
 				// a document: the same verdict (and the same error code) as its compact spelling, against the schema of the first token list
 				sch := gapSchema("{\"a\":1,\"b\":[true,@t],@k:\"s\"}")
